@@ -1,0 +1,14 @@
+//go:build verif
+
+package graph
+
+// VerifYield, when set by a verification harness, is called at the entry of each primitive
+// step of the traversal (readiness test, claim, spawn, visitor entry/return, status update,
+// hand-off, coordinator receive/exit).  It may block to stretch the window between steps.
+var VerifYield func(step, key string)
+
+func verifYield(step, key string) {
+	if f := VerifYield; f != nil {
+		f(step, key)
+	}
+}
